@@ -18,6 +18,8 @@
 EXTENDS Integers, TLC
 
 CONSTANTS WC, WI, WL, FIXED,
+          Low32,       \* TRUE: a wrong Level I that always compares in the 32-bit registers, e.g. a jump-table
+                       \* dispatch `sub $lo,%eax; cmp $span,%eax; ja` for a long controlling value (must be rejected)
           NarrowWrap   \* TRUE: a wrong Level I that converts labels to the UNPROMOTED controlling type (must be rejected)
 
 Pow(n) == 2 ^ n
@@ -54,7 +56,7 @@ RejectI(t, lo, hi) ==
   ELSE e < b
 MatchI(t, v, lo, hi) ==
   LET b  == StoredT(t, lo)  e == StoredT(t, hi)
-      w  == IF t.w = WL THEN WL ELSE WI             \* node->cond->ty->size == 8 ? %rax : %eax
+      w  == IF t.w = WL /\ ~Low32 THEN WL ELSE WI    \* node->cond->ty->size == 8 ? %rax : %eax
       ax == WrapU(v, w)                             \* the register after gen_expr (sign/zero extended load)
       d  == IF FIXED THEN e - b ELSE WrapS(e - b, WI)   \* pinned: int arithmetic, immediate sign-extended
   IN IF lo = hi THEN ax = WrapU(b, w)
